@@ -18,17 +18,17 @@ import (
 	"github.com/google/martian/v3/zzverif/vf"
 )
 
-const hv = `{"header.Verifier": {"name": "X-Exp", "value": "1"}}`
-const hv2 = `{"header.Verifier": {"name": "X-Exp2", "value": "1"}}`
-const sv = `{"status.Verifier": {"statusCode": 200}}`
-const pb = `{"pingback.Verifier": {"scheme": "http", "host": "h", "path": "/ping"}}`
-const qv = `{"querystring.Verifier": {"name": "k", "value": "1"}}`
-const qp = `{"querystring.Verifier": {"name": "k"}}`
-const mv = `{"method.Verifier": {"method": "POST"}}`
-const tr = `{"header.Append": {"name": "X-Trace", "value": "t"}}`
+const zzhv = `{"header.Verifier": {"name": "X-Exp", "value": "1"}}`
+const zzhv2 = `{"header.Verifier": {"name": "X-Exp2", "value": "1"}}`
+const zzsv = `{"status.Verifier": {"statusCode": 200}}`
+const zzpb = `{"pingback.Verifier": {"scheme": "http", "host": "h", "path": "/ping"}}`
+const zzqv = `{"querystring.Verifier": {"name": "k", "value": "1"}}`
+const zzqp = `{"querystring.Verifier": {"name": "k"}}`
+const zzmv = `{"method.Verifier": {"method": "POST"}}`
+const zztr = `{"header.Append": {"name": "X-Trace", "value": "t"}}`
 
 // vmodel describes one verifier of a configuration: when it is evaluated.
-type vmodel struct {
+type zzvmodel struct {
 	status   bool // status verifier (responses only) instead of header verifier
 	second   bool // checks X-Exp2 instead of X-Exp
 	onTrue   bool // evaluated only when the filter condition holds
@@ -42,21 +42,21 @@ type vmodel struct {
 	resFail  int
 }
 
-var shapes = []struct {
+var zzshapes = []struct {
 	cfg string
-	vs  []vmodel
+	vs  []zzvmodel
 }{
-	{`{"fifo.Group": {"modifiers": [` + hv + `]}}`, []vmodel{{}}},
-	{`{"header.Filter": {"name": "X-Cond", "value": "1", "modifier": ` + hv + `}}`, []vmodel{{onTrue: true}}},
-	{`{"header.Filter": {"name": "X-Cond", "value": "1", "modifier": ` + tr + `, "else": ` + hv + `}}`, []vmodel{{onFalse: true}}},
-	{`{"fifo.Group": {"modifiers": [{"fifo.Group": {"modifiers": [` + hv + `]}}, ` + sv + `]}}`, []vmodel{{}, {status: true}}},
-	{`{"header.Filter": {"name": "X-Cond", "value": "1", "modifier": ` + hv + `, "else": ` + hv2 + `}}`, []vmodel{{onTrue: true}, {onFalse: true, second: true}}},
-	{`{"fifo.Group": {"modifiers": [{"header.Filter": {"name": "X-Cond", "value": "1", "modifier": ` + sv + `, "else": ` + hv + `}}]}}`, []vmodel{{status: true, onTrue: true}, {onFalse: true}}},
-	{`{"fifo.Group": {"modifiers": [{"fifo.Group": {"modifiers": [` + pb + `]}}, ` + hv + `]}}`, []vmodel{{pingback: true}, {}}},
-	{`{"fifo.Group": {"modifiers": [` + qv + `, {"fifo.Group": {"modifiers": [` + qp + `, ` + mv + `]}}]}}`, []vmodel{{qsValue: true}, {qsKey: true}, {method: true}}},
+	{`{"fifo.Group": {"modifiers": [` + zzhv + `]}}`, []zzvmodel{{}}},
+	{`{"header.Filter": {"name": "X-Cond", "value": "1", "modifier": ` + zzhv + `}}`, []zzvmodel{{onTrue: true}}},
+	{`{"header.Filter": {"name": "X-Cond", "value": "1", "modifier": ` + zztr + `, "else": ` + zzhv + `}}`, []zzvmodel{{onFalse: true}}},
+	{`{"fifo.Group": {"modifiers": [{"fifo.Group": {"modifiers": [` + zzhv + `]}}, ` + zzsv + `]}}`, []zzvmodel{{}, {status: true}}},
+	{`{"header.Filter": {"name": "X-Cond", "value": "1", "modifier": ` + zzhv + `, "else": ` + zzhv2 + `}}`, []zzvmodel{{onTrue: true}, {onFalse: true, second: true}}},
+	{`{"fifo.Group": {"modifiers": [{"header.Filter": {"name": "X-Cond", "value": "1", "modifier": ` + zzsv + `, "else": ` + zzhv + `}}]}}`, []zzvmodel{{status: true, onTrue: true}, {onFalse: true}}},
+	{`{"fifo.Group": {"modifiers": [{"fifo.Group": {"modifiers": [` + zzpb + `]}}, ` + zzhv + `]}}`, []zzvmodel{{pingback: true}, {}}},
+	{`{"fifo.Group": {"modifiers": [` + zzqv + `, {"fifo.Group": {"modifiers": [` + zzqp + `, ` + zzmv + `]}}]}}`, []zzvmodel{{qsValue: true}, {qsKey: true}, {method: true}}},
 }
 
-func flatCount(err error, tag string) int {
+func zzflatCount(err error, tag string) int {
 	if err == nil {
 		return 0
 	}
@@ -75,15 +75,15 @@ func flatCount(err error, tag string) int {
 // VerifC13History: traffic, queries and resets in any order against a
 // counter model of the unmet expectations.
 func VerifC13History() {
-	sh := shapes[vf.Choice("shape", len(shapes))]
-	vs := append([]vmodel(nil), sh.vs...)
+	sh := zzshapes[vf.Choice("shape", len(zzshapes))]
+	vs := append([]zzvmodel(nil), sh.vs...)
 	hasPingback, hasQuery := false, false
 	for _, v := range vs {
 		hasPingback = hasPingback || v.pingback
 		hasQuery = hasQuery || v.qsValue || v.qsKey || v.method
 	}
 	m := NewModifier()
-	vf.Assert(post(m, sh.cfg) == 200, "configuration-accepted")
+	vf.Assert(zzpost(m, sh.cfg) == 200, "configuration-accepted")
 	ops := vf.Param("ops")
 	for i := 0; i < ops; i++ {
 		vf.WatchOn()
@@ -165,7 +165,7 @@ func VerifC13History() {
 			}
 			vf.Reach("traffic")
 		case 1:
-			n := flatCount(m.VerifyRequests(), "request-query")
+			n := zzflatCount(m.VerifyRequests(), "request-query")
 			vf.WatchOff()
 			want := 0
 			for _, v := range vs {
@@ -177,7 +177,7 @@ func VerifC13History() {
 			vf.Assert(n == want, "request-query:one-error-per-unmet-expectation-since-reset")
 			vf.Reach("query")
 		case 2:
-			n := flatCount(m.VerifyResponses(), "response-query")
+			n := zzflatCount(m.VerifyResponses(), "response-query")
 			vf.WatchOff()
 			want := 0
 			for _, v := range vs {
@@ -196,7 +196,7 @@ func VerifC13History() {
 					initial++
 				}
 			}
-			vf.Assert(flatCount(m.VerifyRequests(), "request-query-after-reset") == initial, "request-reset-returns-every-verifier-to-initial-state")
+			vf.Assert(zzflatCount(m.VerifyRequests(), "request-query-after-reset") == initial, "request-reset-returns-every-verifier-to-initial-state")
 			vf.Reach("reset")
 		case 4:
 			m.ResetResponseVerifications()
@@ -219,8 +219,8 @@ func VerifC13History() {
 	}
 	for k := 0; k < 2; k++ {
 		vf.WatchOn()
-		nq := flatCount(m.VerifyRequests(), "closing-request-query")
-		nr := flatCount(m.VerifyResponses(), "closing-response-query")
+		nq := zzflatCount(m.VerifyRequests(), "closing-request-query")
+		nr := zzflatCount(m.VerifyResponses(), "closing-response-query")
 		vf.WatchOff()
 		vf.Assert(nq == wantReq, "repeated-request-query:one-error-per-unmet-expectation-since-reset")
 		vf.Assert(nr == wantRes, "repeated-response-query:one-error-per-unmet-expectation-since-reset")
